@@ -11,28 +11,35 @@ class C17(Cfg):
     harness_pkg = "dv-events"
     model_exe = "dmodel_events"
     design_ref = "DESIGN.md §6 C17, candidates 24 and 31"
-    technique = ("Lean 4 invariant proof over a model of the content-less FTS index (set of (slot, word), the maintenance rule of Node::write, "
-                 "SQLite slot assignment, ingestion, deletion, model versions) + correspondence run against the real GraphDatabaseService (1-2 instances) "
+    technique = ("Lean 4 invariant proof over a model of the content-less FTS index (set of (slot, word) + one document record per indexed slot, the maintenance rule of Node::write, "
+                 "SQLite slot assignment, ingestion, deletion, model versions; extract_json as a function on JSON values) + correspondence run against the real GraphDatabaseService (1-2 instances) "
                  "+ independent oracle computed from the rows' JSON")
-    level_text = ("Theorems (Lean 4; any history, any number of sites, rows, words, model versions — no bound). For the intended behaviour (Defects.none): after ANY history of creations, updates changing or removing text, "
-                  "deletions followed by creations that reuse the slot, model versions toggling indexing and ingestion of new rows / newer versions, on every site, for every entity the model version in force declares indexed and every word, "
-                  "search = the rows whose current text contains the word (C17_search_exact, C17_flag_follows_model). For the code as implemented the same is proved for histories of local creations, updates and model versions (C17_partial), "
-                  "and decide-checked witnesses show it is false beyond: a deletion leaves its index entries and the reused slot inherits them (stale hit — settled by experiment: the engine accepts the second entry for the slot, no constraint error), "
-                  "synchronised rows are written unindexed (insert missed; update stale + missed), an index flag changed by a later model version is ignored. Tie: the real engine and the compiled model run the same op files (searches for every word of past and current texts on every site), "
+    level_text = ("Theorems (Lean 4; any history, any number of sites, rows, words, model versions — no bound). ONE statement for any setting d of the switches that describe where the code leaves the intended behaviour (C17_full_of, C17_search_exact_of): "
+                  "after any history made of operations the code handles with d (admissibleRun, flagSafeRun — decidable, computed along the run), on every site, for every entity the model version in force declares indexed and every word, "
+                  "search = the rows whose current text contains the word. Instances: Defects.none — every history is admissible (admissibleRun_none): creations, updates changing or removing text, deletions followed by creations that reuse the slot, "
+                  "model versions toggling indexing, ingestion of new rows / newer versions / deletion records (C17_search_exact, C17_flag_follows_model, C17_full_none); Defects.asImplemented — /repo as it is (C17_asImplemented, C17_partial): "
+                  "with the switches as they stand the admissible histories are those of local creations, updates and model versions that change no declaration; each proposed repair of /repo (findings/C17-*.patch + .verif.patch) turns one switch off and the SAME theorem then covers "
+                  "deletions (local and synchronised, with slot reuse) / ingestion / every model version that changes the flag of an entity that has no row at the site. decide-checked witnesses on Defects.beforeFix and on each switch alone show the statement is false beyond: "
+                  "a deletion leaves its index entries and the reused slot inherits them (locally and through a deletion record), synchronised rows are written unindexed (insert missed; update stale + missed), an index flag changed by a later model version is ignored; "
+                  "and, left by the repairs, a flag that changes while the entity has rows re-indexes nothing (C17_breaks_toggleNoReindex). The text of a row is the strings of its JSON at any depth, each followed by a space (C17_text_is_the_strings). "
+                  "Tie: the real engine and the compiled model run the same op files (searches for every word of past and current texts on every site; the storage slot of every row; the slots holding a document record in the index; extract_json on random JSON values), "
                   "outputs diffed; the oracle recomputes every expected result set from the rows' JSON with a plain query and substring test, independent of the model.")
     level_note = ("Trusted: Lean kernel (+propext, Classical.choice, Quot.sound), the hand-written model and harness, SQLite FTS5 (trigram tokenizer: a run of >= 3 letters/digits matches as a substring; the words used are such that none is a substring of another, "
-                  "the oracle does not rely on it). Modelled and exercised: node.rs Node::write/delete, NodeToInsert::write, mutation_query previous/current text, Entity::update (index flag), query.rs search join. "
+                  "the oracle does not rely on it). Modelled and exercised: node.rs Node::write/delete, NodeToInsert::write, NodeDeletionEntry::delete_all, extract_json, mutation_query previous/current text, graph_database add_nodes, Entity::update (index flag), query.rs search join. "
                   "Ingestion is delivered by calling the ingestion entry points with rows exported from a second in-process instance (call sequence of synchronise_day; the harness fixes the order of a fetched batch to creation order — the peer's order is arbitrary). "
+                  "The counters of the FTS5 index (documents, tokens) are NOT modelled: a 'delete' for text that was never indexed drives them negative and SQLite then refuses the write (findings/C17-write-refused-after-unindexed-delete.ops, reached through synchronised rows updated locally). "
+                  "A search that fails with an SQL error is asked again (at most twice; counted as search_retried_after_sql_error): seen under heavy machine load only, as SQLITE_CORRUPT_VTAB on the first search after a mutation. "
                   "Not covered: query-syntax characters in the search text, texts with upper case, rows moved between rooms.")
     trusted_base = [
-        "hand-written model lean/DiscretModel/Model/Fts.lean of node.rs:93-98, 297-301, 322-409, 538-568, 771-781 and query.rs:903-935, tied by the correspondence run (dv-events vs dmodel_events)",
-        "harness/events/src/fts.rs (drives real GraphDatabaseService instances; oracle: plain query + substring test on the JSON the engine returns)",
-        "SQLite FTS5 content-less trigram index: observed behaviour (set of (rowid, term); 'delete' of absent entries is a no-op; insertion into a rowid that still has entries adds to them)",
+        "hand-written model lean/DiscretModel/Model/Fts.lean of node.rs:93-98, 297-301, 322-409, 538-568, 771-781, 947-972, 1004-1025, graph_database.rs add_nodes and query.rs:903-935, tied by the correspondence run (dv-events vs dmodel_events)",
+        "harness/events/src/fts.rs (drives real GraphDatabaseService instances; oracle: plain query + substring test on the JSON the engine returns; the names of the signatures use what the harness did to each row and the index flag the implementation reports)",
+        "SQLite FTS5 content-less trigram index: observed behaviour (set of (rowid, term); 'delete' of absent entries leaves the entries alone; insertion into a rowid that still has entries adds to them; one _docsize record per indexed rowid)",
     ]
     assumptions = [
         "search texts are words of >= 4 lower-case letters/digits without query syntax; no word used is a substring of another (the oracle tests real substrings anyway)",
         "rows stay in one room; one day; the order in which a fetched batch is written is creation order (any order is possible in the field; it only decides which ingested row gets the highest slot)",
         "an explicit null text is only used on single-site histories (a peer refuses explicit nulls: property C12's finding)",
+        "no row of `_node` outside the modelled entities is created or deleted while a case runs (slots are compared relative to the largest rowid at the start of the case)",
     ]
 
     def streams(self, tier, seed, work, dv):
